@@ -321,7 +321,12 @@ pub fn run_check(ctx: &Ctx, replay: Option<&str>, only: Option<&str>) -> i32 {
     }
     let edir = verif_root().join("evidence");
     let _ = std::fs::create_dir_all(&edir);
-    if only.is_none() {
+    if let Some(o) = only {
+        // partial runs never replace the property's evidence file; their counters go to an ignored side directory
+        let pdir = edir.join("partial");
+        let _ = std::fs::create_dir_all(&pdir);
+        let _ = std::fs::write(pdir.join(format!("{}-{}.json", def.id, o)), serde_json::to_string_pretty(&ev).unwrap());
+    } else {
         let _ = std::fs::write(edir.join(format!("{}.json", def.id)), serde_json::to_string_pretty(&ev).unwrap());
     }
     match violation {
